@@ -57,7 +57,8 @@ TRecv == /\ IsEvent("Recv") /\ Run /\ Ev.t = now /\ ~Ev.inline /\ Ev.intact /\ u
          /\ LET id == Head(us[Ev.s].rcvq) IN
             /\ IF Ev.id = -1 THEN Ev.n = 1 /\ Ev.b0 = id % 256 ELSE Ev.id = id
             /\ HasOp(Ev.s)
-            /\ IF Len(Ev.from) = 0 THEN CurOp(Ev.s).style = "recv"
+            /\ IF Len(Ev.from) = 0 THEN ((us[Ev.s].op # None /\ us[Ev.s].op.style = "recv")
+                                         \/ \E i \in OldRecvs(Ev.s) : us[Ev.s].aborting[i].style = "recv")
                ELSE <<Ev.from[1], Ev.from[2]>> = dg[id].from
             /\ Recv(Ev.s, id, Ev.n, dg[id].from)
 TRecvLate == /\ IsEvent("Recv") /\ Run /\ Ev.t = now /\ ~Ev.inline /\ Ev.intact /\ ~us[Ev.s].open
